@@ -29,6 +29,27 @@ CHECKS = {
          'Theorem for every node size (odd/even), overlap, tie order: rank halves + lower-median threshold imply left-only samples are not above and right-only not below the threshold (slack 2e); lifted to whole trees: an untied training sample is routed to a leaf that received it. '
          'Recorded real trees are checked in Coq (tokb), real routing is compared with exact routing and training membership, validation assignment with the <= rule; the comparison operators are re-translated from source each run (C06 translator).',
          'Trusted: Coq kernel + vm_compute, recorders, slack e bounding float32 projection rounding; torch.sort sorts, torch.median is the lower median (both checked through tokb on every recorded node).'),
+
+ 'C02': ('DESIGN.md §4 C02',
+         'Coq proof (invariant over the fit loop) of state coherence for every history/switch setting + vm_compute correspondence of the real RFM.fit with tagged stubs + residual check of real fits incl. mpmath closed-form Gram matrix',
+         'Theorem: for every score history, iteration budget, early-stop and best-restore setting the stored coefficients were solved with exactly the stored feature-matrix version and bandwidth (hypothesis: nothing is worse than the infinite sentinel; refuted-without-hypothesis example). '
+         'The real loop is driven with scripted scores and tagged solve/AGOP stubs and compared with the model in Coq on binary64; real leaf fits (all CPU kernels, solvers, dtypes, adaptive bandwidth) are checked for (K+lambda I) alpha = Y with K of the stored state and, for n<=10, with the Gram matrix of the documented closed form.',
+         'Trusted: Coq kernel + vm_compute (PrimFloat), stubs, LAPACK solve contract (residual of a returned solution is small), mpmath. The ridge identity itself is numeric (tolerance 200 n u scale).'),
+ 'C03': ('DESIGN.md §4 C03',
+         'Coq proof (loop invariant, strict-weak-order reasoning; generic score type with Q and binary64 instances) + exhaustive/random scripted histories through the real RFM.fit compared by vm_compute',
+         'Theorem for every finite score history, budget, direction, stop predicate: the returned coefficients/M/sqrtM/bandwidth all carry the index of the FIRST evaluated iterate that no evaluated iterate beats; with early stopping the evaluations end at the first iterate worse than the best so far by more than the multiplier; never crashes. '
+         'All histories over a small alphabet (budgets 0-5) and random binary64 histories with ties are run through the real loop (tagged stubs) and compared bit-exactly with the model.',
+         'Trusted: Coq kernel + vm_compute (PrimFloat primitives as the model of Python float comparison/multiplication), scripted stubs. NaN scores excluded as the property states.'),
+ 'C09': ('DESIGN.md §4 C09',
+         'Coq proofs: stack-machine = structural path table (induction with a stack measure); softmax of log-sigmoid sums = gate products summing to 1, T->0 bound (Reals); rational truncation lemmas; interval-certified weight correspondence + vm_compute relation on observed truncations',
+         'Theorems for every tree: cache builder = preorder/left-to-right table; weights = product of gate sigmoids, positive, sum to one; renormalised masked weights lie on the simplex so outputs are in the convex hull; active set is a top-weighted prefix, smallest reaching keep, within the cap; hard leaf weight >= 1 - D exp(-margin/T). '
+         'One-hot probe leaves expose the weight matrix of the real code; weights are certified against the real-valued model by `interval`, truncations by a rational relation in Coq, leaf invocation sets and T->0 by oracle.',
+         'Trusted: Coq kernel, vm_compute, Interval tactic, real-number axioms of the standard library, probe leaves. float32 tolerance 5e-6+2e-5 w; cut-off ties within 4e-6 accepted either way.'),
+ 'C10': ('DESIGN.md §4 C10',
+         'Coq proof (fold invariant, generic score/temperature types with Q and binary64 instances) + exhaustive/random scripted tunings through the real fit_temperature compared by vm_compute + recomputation of recorded scores on real fits',
+         'Theorem for every candidate list, score function, direction and initial temperature: stored temperature is a candidate with optimal score, recorded best = its score, recorded results = true scores, never worse than hard routing when a candidate <= 0 is present. '
+         'The real fit_temperature runs on a manual tree with a scripted metric and is compared bit-exactly with the model; on real fits every recorded score is recomputed from predict/predict_proba.',
+         'Trusted: Coq kernel + vm_compute (PrimFloat), scripted metric object patched into the harness process only, numpy metric re-implementations.'),
 }
 
 NOT_YET = 'check not built yet in this session (planned, see DESIGN.md §4)'
